@@ -89,9 +89,95 @@ func pickEnabled(rng *kernel.RNG, all []int64) []int64 {
 
 func st(op string, a ...int64) kernel.Step { return kernel.Step{Op: op, A: a} }
 
+// keyOrderEpisode: 2-3 configuration-change headers, each validly signed by the set tracked for
+// its height, relayed NOT in ascending height order (e.g. 20 before 10), then headers (kind 0) or
+// messages (kinds 1, 2) at heights between and above them signed by the set of the greatest key
+// height below (must be acceptable) or by the set of an older key height (stale: must be refused).
+func keyOrderEpisode(rng *kernel.RNG, kinds []int64) []kernel.Step {
+	var steps []kernel.Step
+	r := func() int64 { return int64(rng.Intn(1000)) }
+	free := rng.Perm(ontMaxH - 4)                                               // relative heights 5..ontMaxH are used by the episode
+	next := func() int64 { h := free[0]; free = free[1:]; return int64(h + 4) } // argument = relative height - 1
+	nk := 2 + rng.Intn(2)
+	var keys []int64
+	for i := 0; i < nk; i++ {
+		keys = append(keys, int64(4+rng.Intn(ontMaxH-9)))
+	}
+	// distinct heights, relayed in an order that is not ascending
+	seen := map[int64]bool{}
+	var ks []int64
+	for _, k := range keys {
+		for seen[k] {
+			k++
+		}
+		seen[k] = true
+		ks = append(ks, k)
+	}
+	asc := true
+	for i := 1; i < len(ks); i++ {
+		if ks[i] < ks[i-1] {
+			asc = false
+		}
+	}
+	if asc {
+		ks[0], ks[len(ks)-1] = ks[len(ks)-1], ks[0]
+	}
+	which := rng.Perm(3)
+	var maxK int64
+	for i, k := range ks {
+		mode := int64(0)
+		if rng.Chance(0.3) {
+			mode = []int64{1, 12}[rng.Intn(2)]
+		}
+		steps = append(steps, st("okey", k, int64(which[i]), mode, r(), int64(rng.Intn(6)/5)))
+		if rng.Chance(0.8) {
+			steps = append(steps, st("cut"))
+		}
+		if k > maxK {
+			maxK = k
+		}
+	}
+	steps = append(steps, st("cut"))
+	n := 5 + rng.Intn(7)
+	for i := 0; i < n && len(free) > 0; i++ {
+		h := next()
+		for tries := 0; (seen[h] || (rng.Chance(0.6) && h <= maxK)) && len(free) > 0 && tries < 8; tries++ {
+			h = next()
+		}
+		if seen[h] {
+			continue
+		}
+		seen[h] = true
+		k := int64(0)
+		switch x := rng.Intn(20); {
+		case x < 8:
+			k = 1
+		case x < 10:
+			k = 2
+		}
+		mode := int64(0)
+		if rng.Chance(0.25) {
+			mode = []int64{1, 12, 2, 3, 13}[rng.Intn(5)]
+		}
+		steps = append(steps, st("oset", h, k, mode, r(), kinds[rng.Intn(len(kinds))]))
+		if rng.Chance(0.75) {
+			steps = append(steps, st("cut"))
+		}
+	}
+	return append(steps, st("cut"))
+}
+
 func genOntC31(rng *kernel.RNG, tier string) *kernel.Plan {
 	cfg := baseCfg(rng)
 	chs := ontCfg(rng, cfg)
+	if rng.Chance(0.22) { // key-height-order run: trust root, a short walk, then the episode
+		steps := []kernel.Step{st("ogen", 0, 0), st("cut")}
+		for h := 0; h < rng.Intn(4); h++ {
+			steps = append(steps, st("ohdr", int64(h), ontHonest[rng.Intn(len(ontHonest))], int64(rng.Intn(1000)), 0, 0, 0), st("cut"))
+		}
+		steps = append(steps, keyOrderEpisode(rng, []int64{0})...)
+		return &kernel.Plan{Cfg: cfg, Steps: steps}
+	}
 	c := newOntChain(0, ontChainID, int(cfg["n0"]), 0, ontMaxH, chs) // schedule only (keys irrelevant)
 	faults := pickEnabled(rng, ontHdrFaults)
 	var steps []kernel.Step
@@ -171,6 +257,10 @@ func genOntC24(rng *kernel.RNG, tier string) *kernel.Plan {
 	var steps []kernel.Step
 	r := func() int64 { return int64(rng.Intn(1000)) }
 	steps = append(steps, st("ogen", 0, 0), st("cut"))
+	if rng.Chance(0.22) { // key headers relayed out of height order, then messages signed by the newest / a stale set
+		steps = append(steps, keyOrderEpisode(rng, []int64{1, 2, 1, 2, 0})...)
+		return &kernel.Plan{Cfg: cfg, Steps: steps}
+	}
 	// honest header sync up to a random point so that 1..ne+1 peer sets are tracked
 	upto := rng.Intn(ontMaxH + 1)
 	first := true
@@ -314,12 +404,12 @@ func execute(run *kernel.Run) {
 func init() {
 	kernel.Register(&kernel.Check{
 		ID: "C31", Level: "exploration", Engine: "E1 lightclient-ont/neo (lcont)",
-		Rule: "per run one simulated side chain (50% Ontology, 30% NEO, 20% NEO N3) registered on a real poly ledger (E1 harness, 4-5 validators, 0-1 followers): Ontology = VBFT header chain of 24 heights over peer sets of 4-7 of 10 P-256 keys with 0-3 key heights announcing new sets (some listing a peer twice), trust root at height 0/1000/4000000; headers are submitted by a relayer in walk order with gaps, out of order, replayed, alone or several per transaction, one or several transactions per block, each sealed under one of 13 modes (2/3+, exactly ceil(N/3), one below, one signer listed k times, duplicates padding the count, a repeated signer combined with listed-but-silent members in several listing orders, outsiders padding, outsiders only, one invalid/foreign/truncated signature, missing signature, previous set, extra garbage signatures, duplicate above threshold, all members) or forged to claim a configuration change (also signed by an equivocating third); NEO/N3 = headers whose witness is an m-of-n CHECKMULTISIG script over the tracked next-consensus hash with 1-3 validator changes, submitted with honest / m-1 / duplicated signature / foreign script / lowered-m script / invalid signature / previous-set witness / lower-or-equal index. oracle (reference model from the property text, independent stdlib ECDSA verification): a successful syncBlockHeader implies every non-skipped header has >= 1/3 of the DISTINCT members of the peer set recorded at the greatest recorded key height below it as listed bookkeepers with valid signatures; every peer-set / key-height write is explained by such a header (or the operator's trust root) and equals what it announced; NEO: the tracked (index, next-consensus) changes only to a header of the transaction with a higher index whose witness script hashes to the tracked value and carries >= m valid signatures of distinct members. non-trivial = at least one honest artefact accepted and one faulty one rejected; distinct by the sequence of (seal mode, outcome)",
+		Rule: "per run one simulated side chain (50% Ontology, 30% NEO, 20% NEO N3) registered on a real poly ledger (E1 harness, 4-5 validators, 0-1 followers): Ontology = VBFT header chain of 24 heights over peer sets of 4-7 of 10 P-256 keys with 0-3 key heights announcing new sets (some listing a peer twice), trust root at height 0/1000/4000000; headers are submitted by a relayer in walk order with gaps, out of order, replayed, alone or several per transaction, one or several transactions per block, each sealed under one of 13 modes (2/3+, exactly ceil(N/3), one below, one signer listed k times, duplicates padding the count, a repeated signer combined with listed-but-silent members in several listing orders, outsiders padding, outsiders only, one invalid/foreign/truncated signature, missing signature, previous set, extra garbage signatures, duplicate above threshold, all members) or forged to claim a configuration change (also signed by an equivocating third); 22% of the Ontology runs relay 2-3 configuration-change headers, each validly signed by the set tracked for its height, in NON-ascending height order (e.g. 20 before 10) and then submit headers between and above them signed by the set of the greatest key height below (acceptable) or of an older key height (stale, must be refused); NEO/N3 = headers whose witness is an m-of-n CHECKMULTISIG script over the tracked next-consensus hash with 1-3 validator changes, submitted with honest / m-1 / duplicated signature / foreign script / lowered-m script / invalid signature / previous-set witness / lower-or-equal index. oracle (reference model from the property text, independent stdlib ECDSA verification): a successful syncBlockHeader implies every non-skipped header has >= 1/3 of the DISTINCT members of the peer set recorded at the greatest recorded key height below it as listed bookkeepers with valid signatures; every peer-set / key-height write is explained by such a header (or the operator's trust root) and equals what it announced; NEO: the tracked (index, next-consensus) changes only to a header of the transaction with a higher index whose witness script hashes to the tracked value and carries >= m valid signatures of distinct members. non-trivial = at least one honest artefact accepted and one faulty one rejected; distinct by the sequence of (seal mode, outcome)",
 		Real: lcReal, Stub: lcStub,
 		Assumptions: []string{"header acceptance completeness is not asserted (probes require that honest headers were accepted)", "trust-root installation by the consensus operator is taken as authentic (C19 decides re-installation)", "signature validity is decided by crypto/ecdsa on the keys and digests of the simulated chain"},
 		QuickRuns:   320, ThoroughRuns: 24000, QuickCap: 60, ThoroughCap: 800,
 		RequiredProbes: []string{"ont_hdr:honest:accepted", "ont_hdr:exact-third:accepted", "ont_hdr:below-third:rejected", "ont_hdr:dup-one:rejected", "ont_hdr:dup-pad:rejected", "ont_hdr:dup-silent:rejected", "ont_hdr:silent-dup-extra:rejected", "ont_hdr:foreign-pad:rejected",
-			"ont_hdr:bad-sig:rejected", "ont_hdr:prev-set:rejected", "ont_key_header_recorded", "ont_hdr_accepted_exactly_at_one_third", "ont_multi_header_tx_accepted",
+			"ont_hdr:bad-sig:rejected", "ont_hdr:prev-set:rejected", "ont_key_header_recorded", "ont_key_header_recorded_below_an_already_recorded_key_height", "ont_after_out_of_order_keys_hdr:stale-set/honest:rejected", "ont_after_out_of_order_keys_hdr:newest-set/honest:accepted", "ont_hdr_accepted_exactly_at_one_third", "ont_multi_header_tx_accepted",
 			"neo_change:honest:accepted", "neo_change:below-m:rejected", "neo_change:other-script:rejected", "neo_change:lower-index:ignored", "neo_change:dup-sig:rejected",
 			"neo_validly_witnessed_change_at_lower_or_equal_index_ignored", "neo3_change:honest:accepted", "neo3_change:lower-index:ignored", "neo3_change:other-script:rejected"},
 		Generate: func(rng *kernel.RNG, idx int, tier string) *kernel.Plan {
@@ -335,11 +425,11 @@ func init() {
 	})
 	kernel.Register(&kernel.Check{
 		ID: "C24", Level: "exploration", Engine: "E1 lightclient-ont/neo (lcont)",
-		Rule: "per run one simulated side chain (50% Ontology, 30% NEO, 20% NEO N3) with its trust root installed and headers synced honestly up to a random point (so 1-4 tracked peer sets / validator sets of sizes 4-7 are in force for different heights); then 8-22 cross-chain messages for random heights, through header_sync.syncCrossChainMsg (Ontology) and through cross_chain_manager.importOuterTransfer with a valid merkle / MPT proof of a cross-chain state (all three), each signed under a fault mode: honest 2/3+, exactly the required count, one below, ONE TRACKED SIGNER LISTED k TIMES, duplicates padding the count, a repeated signer combined with listed tracked members that did not sign ([A,A,B]+[sA,sA], [B,A,A]+[sA,sA,sX], [A,B,C,A]+[sA,sB,sA]), outsiders padding / only, invalid / foreign / truncated signature, missing signature, previous set, other script / lowered-m script (NEO); replayed deposits as C20 probes. oracle: acceptance (message stored / deposit succeeded) implies the number of DISTINCT tracked members listed with a valid signature >= required (ceil(N/3) for this Ontology light client, m of the tracked m-of-n script for NEO, n-(n-1)/3 of the registered state validators for N3). non-trivial/distinct as C31",
+		Rule: "per run one simulated side chain (50% Ontology, 30% NEO, 20% NEO N3) with its trust root installed and headers synced honestly up to a random point (so 1-4 tracked peer sets / validator sets of sizes 4-7 are in force for different heights); then 8-22 cross-chain messages for random heights, through header_sync.syncCrossChainMsg (Ontology) and through cross_chain_manager.importOuterTransfer with a valid merkle / MPT proof of a cross-chain state (all three), each signed under a fault mode: honest 2/3+, exactly the required count, one below, ONE TRACKED SIGNER LISTED k TIMES, duplicates padding the count, a repeated signer combined with listed tracked members that did not sign ([A,A,B]+[sA,sA], [B,A,A]+[sA,sA,sX], [A,B,C,A]+[sA,sB,sA]), outsiders padding / only, invalid / foreign / truncated signature, missing signature, previous set, other script / lowered-m script (NEO); replayed deposits as C20 probes; 22% of the Ontology runs first relay configuration-change headers out of height order and then send messages signed by the newest / a stale tracked set. oracle: acceptance (message stored / deposit succeeded) implies the number of DISTINCT tracked members listed with a valid signature >= required (ceil(N/3) for this Ontology light client, m of the tracked m-of-n script for NEO, n-(n-1)/3 of the registered state validators for N3). non-trivial/distinct as C31",
 		Real: lcReal, Stub: lcStub,
 		Assumptions: []string{"required count for Ontology taken from the property text of C31 (one third of the tracked peer set)", "message acceptance through the deposit path is observed as success of the whole import (valid proof, registered destination)"},
 		QuickRuns:   320, ThoroughRuns: 24000, QuickCap: 60, ThoroughCap: 800,
-		RequiredProbes: []string{"ont_msg:honest:accepted", "ont_dep:honest:accepted", "ont_msg:dup-one:rejected", "ont_dep:dup-one:rejected", "ont_msg:dup-pad:rejected", "ont_msg:dup-silent:rejected", "ont_dep:dup-silent:rejected", "ont_msg:silent-dup-extra:rejected", "ont_msg:dup-silent-partial:rejected", "ont_msg:below-third:rejected", "ont_msg:foreign-pad:rejected", "ont_msg:bad-sig:rejected", "ont_msg_accepted_exactly_at_required_count",
+		RequiredProbes: []string{"ont_msg:honest:accepted", "ont_dep:honest:accepted", "ont_msg:dup-one:rejected", "ont_dep:dup-one:rejected", "ont_msg:dup-pad:rejected", "ont_msg:dup-silent:rejected", "ont_dep:dup-silent:rejected", "ont_msg:silent-dup-extra:rejected", "ont_msg:dup-silent-partial:rejected", "ont_msg:below-third:rejected", "ont_msg:foreign-pad:rejected", "ont_msg:bad-sig:rejected", "ont_msg_accepted_exactly_at_required_count", "ont_key_header_recorded_below_an_already_recorded_key_height", "ont_after_out_of_order_keys_msg:stale-set/honest:rejected", "ont_after_out_of_order_keys_msg:newest-set/honest:accepted", "ont_after_out_of_order_keys_dep:stale-set/honest:rejected", "ont_after_out_of_order_keys_dep:newest-set/honest:accepted",
 			"neo_msg:honest:accepted", "neo_msg:below-m:rejected", "neo_msg:dup-sig:rejected", "neo_msg:other-script:rejected",
 			"neo3_msg:honest:accepted", "neo3_msg:dup-sig:rejected", "neo3_msg:other-script:rejected"},
 		Generate: func(rng *kernel.RNG, idx int, tier string) *kernel.Plan {
